@@ -1,6 +1,7 @@
 package yubiagent
 
 //vsym:pkg github.com/theparanoids/ysshra/agent/yubiagent
+//vsym:include yubiagent/ctor.go || yubiagent/ctor_bb.go
 //vsym:include C13/zz_stub.go
 //vsym:entry H13_compose
 //vsym:model golang.org/x/crypto/ssh.Marshal m13cMarshal
@@ -194,7 +195,7 @@ func H13_compose() {
 	vAssume(vAnd(sv.errText[0] > 0x20, sv.errText[0] < 0x7f))
 	vAssume(!vEqString(sv.errText, "S")) // (a one-byte text cannot be mistaken for SUCCESS anyway)
 	pipe := &m13cPipe{served: sv}
-	cl := &client{conn: pipe}
+	cl := ygNewClient(pipe)
 	op := vChoose(5, "operation")
 	switch op {
 	case 0:
